@@ -30,6 +30,7 @@ theorem removed_type_reported (o n : SchemaD) (t : TypeD) (m : Nat) (hm : m ≤ 
   constructor
   · simp only [List.mem_append]
     iterate 8 left
+    right
     unfold findRemovedTypes
     apply List.mem_map.mpr
     exact ⟨t, List.mem_filter.mpr ⟨ht, by simp [hn]⟩, rfl⟩
